@@ -238,7 +238,7 @@ def parse_out(text):
 
 
 def run_sharded(driver, cases, drv_bin, rundir, shards=None, impl_env=None, timeout=1800,
-                run_model=True, model_driver=None, impl_args=None):
+                run_model=True, model_driver=None, impl_args=None, run_impl=True):
     """cases: list of (case_id, header_tokens, [op token lists]).  Returns (impl, model)
     dicts case_id -> {"obs": [...], "aux": [...]}; a shard whose process died yields
     the cases it printed before dying plus a '__crashed__' marker."""
@@ -256,7 +256,7 @@ def run_sharded(driver, cases, drv_bin, rundir, shards=None, impl_env=None, time
                 f.write("E\n")
         files.append(p)
 
-    def run_impl(i):
+    def run_impl_f(i):
         wd = os.path.join(rundir, "w%d" % i)
         os.makedirs(wd, exist_ok=True)
         env = dict(os.environ)
@@ -275,7 +275,7 @@ def run_sharded(driver, cases, drv_bin, rundir, shards=None, impl_env=None, time
 
     impl, model, errs = {}, {}, []
     with ThreadPoolExecutor(max_workers=NCPU) as ex:
-        fi = [ex.submit(run_impl, i) for i in range(len(files))]
+        fi = [ex.submit(run_impl_f, i) for i in range(len(files))] if run_impl else []
         fm = [ex.submit(run_mod, i) for i in range(len(files))] if run_model else []
         for i, f in enumerate(fi):
             rc, out, err = f.result()
